@@ -1,5 +1,7 @@
 from __future__ import annotations
 
+import contextlib
+import os
 import re
 import sys
 import unicodedata
@@ -90,6 +92,11 @@ def _codegen(name: str, model: pysbml.transform.data.Model) -> Path:
 
 
 def import_from_path(module_name: str, file_path: Path) -> Callable[[], Model]:
+    # Bytecode cached for an earlier file of this name is only invalidated by its mtime
+    # (in whole seconds) and size, so a re-generated module could silently run old code
+    with contextlib.suppress(OSError, NotImplementedError):
+        os.unlink(util.cache_from_source(str(file_path)))
+
     spec = util.spec_from_file_location(module_name, file_path)
     assert spec is not None  # noqa: S101
     module = util.module_from_spec(spec)
